@@ -43,6 +43,7 @@ class Walker:
         self.cur_tag = None
         self.cur_feat = None
         self.rebased = {}
+        self.confirmed_types = set()
         self.samples = []
 
     # ------------------------------------------------------------ helpers
@@ -142,6 +143,10 @@ class Walker:
 
         self.checkpoint = {}
         steps = life.get("steps", [])
+        # A crash (not a kill while idle) interrupts the step that was issued last: even if its response
+        # was already written, background work it started (the WAL append of an acknowledged STORE) may
+        # not have run. Such a STORE is acknowledged but not yet "applied" in the property's sense.
+        self.inflight_step = max(issue_by_step) if (crash is not None and issue_by_step) else None
         for si, st in enumerate(steps):
             meta = st.get("meta") or {}
             kind = meta.get("kind")
@@ -178,6 +183,8 @@ class Walker:
 
     # ------------------------------------------------------------ writes
     def on_define(self, li, si, st, meta, issue, r):
+        if r is not None and r.ok() and si != getattr(self, "inflight_step", None):
+            self.confirmed_types.add(meta["type"])
         if r is not None and r.ok():
             if meta["type"] not in self.model.schemas:
                 self.model.define(meta["type"], meta["schema"])
@@ -194,17 +201,28 @@ class Walker:
                 self.model.add(ev)
                 self.stats["store_inflight"] += 1
             return
+        if r.kind == "plain" and r.status == 200 and si == getattr(self, "inflight_step", None):
+            ev = Ev(meta["k"], meta["type"], meta["ctx"], meta["payload"], ts, li, si,
+                    len(self.model.events), meta.get("stored"))
+            ev.state = "may"
+            self.model.add(ev)
+            self.stats["store_acked_not_applied_at_crash"] += 1
+            return
         if r.kind == "plain" and r.status == 200:
             if not meta.get("valid", True):
                 self.v("accepted-invalid", li, si, f"invalid payload accepted: {meta['payload']}")
                 # it is in the store now; track it so that later reads are not reported as foreign
             ev = Ev(meta["k"], meta["type"], meta["ctx"], meta["payload"], ts, li, si,
                     len(self.model.events), meta.get("stored"))
+            ev.vclass = meta.get("vclass")
+            if ev.vclass:
+                self.stats["vclass:" + ev.vclass] += 1
             self.model.add(ev)
             self.stats["store_acked"] += 1
         else:
-            if meta.get("valid", True) and not self.opts.get("faulty"):
-                self.v("rejected-valid", li, si, f"valid STORE rejected: {r}")
+            undefined = meta["type"] not in self.confirmed_types
+            if meta.get("valid", True) and not self.opts.get("faulty") and not undefined:
+                self.v("rejected-valid", li, si, f"valid STORE rejected: {r}", vclass=meta.get("vclass"))
             self.stats["store_rejected"] += 1
 
     def on_flush(self, li, si, st, meta, issue, r):
@@ -234,7 +252,8 @@ class Walker:
             if f in row and not _num_eq(row[f], val):
                 bad.append((f, row[f], val))
         if bad:
-            self.v("wrong-value", li, si, f"k={ev.k}: " + "; ".join(f"{f}: got {g!r} want {w!r}" for f, g, w in bad), k=ev.k)
+            self.v("wrong-value", li, si, f"k={ev.k}: " + "; ".join(f"{f}: got {g!r} want {w!r}" for f, g, w in bad), k=ev.k,
+                   vclass=ev.vclass, fields=sorted(set(f for f, _, _ in bad)))
         eid = row.get("event_id")
         if eid is not None:
             self._check_eid(li, si, ev, eid)
